@@ -144,9 +144,80 @@ def noSelfFeedback (p : Prog) : Bool :=
   (List.range p.length).all fun e =>
     match p[e]? with
     | some (.eff b) =>
-      (List.range e).all fun sg => !(b.writesSig sg) ||
-        (List.range e).all fun y => !(b.readsNode y) || !(dependsOn p p.length y sg)
+      (List.range p.length).all fun sg => !(b.writesSig sg) ||
+        (List.range p.length).all fun y => !(b.readsNode y) || !(dependsOn p p.length y sg)
     | _ => true
 
+theorem readsNode_lt : ∀ (e : Expr) (k y : Nat), e.readsBelow k = true → e.readsNode y = true → y < k
+  | .lit _, _, _, _, h => by simp [Expr.readsNode] at h
+  | .rd _ id, k, y, hb, h => by
+    simp only [Expr.readsBelow, decide_eq_true_eq] at hb
+    simp only [Expr.readsNode, beq_iff_eq] at h
+    omega
+  | .add a b, k, y, hb, h => by
+    simp only [Expr.readsBelow, Bool.and_eq_true] at hb
+    simp only [Expr.readsNode, Bool.or_eq_true] at h
+    rcases h with h | h
+    · exact readsNode_lt a k y hb.1 h
+    · exact readsNode_lt b k y hb.2 h
+  | .mulc _ a, k, y, hb, h => by
+    simp only [Expr.readsBelow] at hb
+    simp only [Expr.readsNode] at h
+    exact readsNode_lt a k y hb h
+  | .ite c t e, k, y, hb, h => by
+    simp only [Expr.readsBelow, Bool.and_eq_true] at hb
+    simp only [Expr.readsNode, Bool.or_eq_true] at h
+    rcases h with (h | h) | h
+    · exact readsNode_lt c k y hb.1.1 h
+    · exact readsNode_lt t k y hb.1.2 h
+    · exact readsNode_lt e k y hb.2 h
+  | .seq a b, k, y, hb, h => by
+    simp only [Expr.readsBelow, Bool.and_eq_true] at hb
+    simp only [Expr.readsNode, Bool.or_eq_true] at h
+    rcases h with h | h
+    · exact readsNode_lt a k y hb.1 h
+    · exact readsNode_lt b k y hb.2 h
+  | .wr _ a, k, y, hb, h => by
+    simp only [Expr.readsBelow] at hb
+    simp only [Expr.readsNode] at h
+    exact readsNode_lt a k y hb h
+
+theorem writesSig_lt (p : Prog) : ∀ (e : Expr) (sg : Nat), e.readsData p = true → e.writesSig sg = true →
+    sg < p.length
+  | .lit _, _, _, h => by simp [Expr.writesSig] at h
+  | .rd _ _, _, _, h => by simp [Expr.writesSig] at h
+  | .add a b, sg, hd, h => by
+    simp only [Expr.readsData, Bool.and_eq_true] at hd
+    simp only [Expr.writesSig, Bool.or_eq_true] at h
+    rcases h with h | h
+    · exact writesSig_lt p a sg hd.1 h
+    · exact writesSig_lt p b sg hd.2 h
+  | .mulc _ a, sg, hd, h => by
+    simp only [Expr.readsData] at hd
+    simp only [Expr.writesSig] at h
+    exact writesSig_lt p a sg hd h
+  | .ite c t e, sg, hd, h => by
+    simp only [Expr.readsData, Bool.and_eq_true] at hd
+    simp only [Expr.writesSig, Bool.or_eq_true] at h
+    rcases h with (h | h) | h
+    · exact writesSig_lt p c sg hd.1.1 h
+    · exact writesSig_lt p t sg hd.1.2 h
+    · exact writesSig_lt p e sg hd.2 h
+  | .seq a b, sg, hd, h => by
+    simp only [Expr.readsData, Bool.and_eq_true] at hd
+    simp only [Expr.writesSig, Bool.or_eq_true] at h
+    rcases h with h | h
+    · exact writesSig_lt p a sg hd.1 h
+    · exact writesSig_lt p b sg hd.2 h
+  | .wr id a, sg, hd, h => by
+    simp only [Expr.readsData, Bool.and_eq_true] at hd
+    simp only [Expr.writesSig, Bool.or_eq_true, beq_iff_eq] at h
+    rcases h with h | h
+    · subst h
+      rcases Nat.lt_or_ge id p.length with h' | h'
+      · exact h'
+      · have := hd.1
+        rw [List.getElem?_eq_none h'] at this; simp at this
+    · exact writesSig_lt p a sg hd.2 h
 
 end Leptos.Reactive
